@@ -128,10 +128,14 @@ func (res *Resource) unpackZipArchive() error {
 
 	// Save all files to the tmp dir.
 	for _, file := range archiveReader.File {
-		err = copyFromZipArchive(
-			file,
-			filepath.Join(tmpDir, filepath.FromSlash(file.Name)),
-		)
+		// Check that the entry stays within the unpack directory.
+		dstPath := filepath.Join(tmpDir, filepath.FromSlash(file.Name))
+		if !strings.HasPrefix(dstPath, tmpDir+string(filepath.Separator)) {
+			err = fmt.Errorf("archive file %q is outside of the unpack directory", file.Name)
+			return err
+		}
+
+		err = copyFromZipArchive(file, dstPath)
 		if err != nil {
 			return fmt.Errorf("failed to extract archive file %s: %w", file.Name, err)
 		}
